@@ -69,12 +69,12 @@ func usesWords(fi *FuncInfo, ct *Contract) bool {
 	found := false
 	info := fi.Pkg.TypesInfo
 	ast.Inspect(fi.Decl, func(n ast.Node) bool {
-		switch x := n.(type) {
-		case *ast.SelectorExpr:
+		if x, ok := n.(*ast.SelectorExpr); ok {
 			if id, ok := x.X.(*ast.Ident); ok && id.Name == "bits" {
 				found = true
 			}
-		case ast.Expr:
+		}
+		if x, ok := n.(ast.Expr); ok {
 			if tv, ok := info.Types[x]; ok && tv.Type != nil {
 				if sl, ok := types.Unalias(tv.Type).Underlying().(*types.Slice); ok {
 					if b, ok := sl.Elem().Underlying().(*types.Basic); ok && b.Kind() == types.Uint64 {
@@ -566,6 +566,10 @@ func (e *Exec) useLemma(st *State, name string) {
 		key = "roaring." + name
 		ct, fi = e.prog.Contracts[key], e.prog.Funcs[key]
 	}
+	if ct != nil && ct.Pure {
+		e.usePureLemma(key, ct, false)
+		return
+	}
 	if ct == nil || fi == nil || !ct.IsLemma {
 		e.specErrors = append(e.specErrors, "use "+name+": no such lemma procedure")
 		return
@@ -610,4 +614,117 @@ func (e *Exec) useLemma(st *State, name string) {
 	e.globalAxiom(txt)
 	e.atags[len(e.assumps)-1] = name
 	e.note("lemma", fmt.Sprintf("closure of lemma procedure %s used as a premise (the procedure is verified by induction in the same run)", key))
+}
+
+
+// pureLemmaParts translates a pure lemma (no Go code): binders, precondition, conclusion, measure, patterns.
+func (e *Exec) pureLemmaParts(ct *Contract, prefix string) (binders []string, vars []Term, pre, post Term, measure Term, pats []string) {
+	tpkg := e.prog.Pkgs[ct.Pkg].Types
+	pst := &State{vars: nil, heap: map[string]Term{}, pc: True}
+	env := &SpecEnv{vars: map[string]TV{}, oldVars: map[string]TV{}, cur: pst, old: pst, pkg: ct.Pkg, tpkg: tpkg}
+	var typeFacts []Term
+	for _, p := range ct.PureParams {
+		pt := e.resolveType(tpkg, p.Type)
+		ps := e.sortOf(pt)
+		if at, ok := pt.Underlying().(*types.Array); ok {
+			ps = ArraySort(SInt, e.elemSort(at.Elem()))
+		} else if b, ok := pt.Underlying().(*types.Basic); ok && b.Kind() == types.Uint64 {
+			ps = SBV64
+		}
+		v := Term{prefix + p.Name, ps}
+		env.vars[p.Name] = TV{v, pt}
+		binders = append(binders, fmt.Sprintf("(%s%s %s)", prefix, p.Name, ps))
+		vars = append(vars, v)
+		if ps == SInt {
+			typeFacts = append(typeFacts, e.rangeFact(v, pt))
+		}
+	}
+	var pres, posts []Term
+	for _, r := range ct.Requires {
+		pres = append(pres, e.specBool(pst, r, env))
+	}
+	for _, en := range ct.Ensures {
+		posts = append(posts, e.specBool(pst, en, env))
+	}
+	for _, t := range ct.Trigger {
+		pats = append(pats, ":pattern ("+e.specTerm(pst, t, env).S+")")
+	}
+	measure = IntLit(0)
+	if ct.Decreases != nil {
+		measure = e.specTerm(pst, *ct.Decreases, env)
+	}
+	return binders, vars, And(append(typeFacts, pres...)...), And(posts...), measure, pats
+}
+
+// usePureLemma adds the closure of a pure lemma as a premise (smallerThan non-empty: only for
+// instances of smaller measure, i.e. the induction hypothesis).
+func (e *Exec) usePureLemma(key string, ct *Contract, asIH bool) {
+	defer e.catchSpec("purelemma "+key, 0)
+	binders, _, pre, post, _, pats := e.pureLemmaParts(ct, "l!")
+	txt := fmt.Sprintf("(assert (forall (%s) (! %s %s)))", strings.Join(binders, " "), Implies(pre, post).S, strings.Join(pats, " "))
+	if len(pats) == 0 {
+		txt = fmt.Sprintf("(assert (forall (%s) %s))", strings.Join(binders, " "), Implies(pre, post).S)
+	}
+	e.globalAxiom(txt)
+	name := key[strings.IndexByte(key, '.')+1:]
+	e.atags[len(e.assumps)-1] = name
+	e.usedLemmas = append(e.usedLemmas, key)
+	e.note("lemma", fmt.Sprintf("pure lemma %s used as a premise (proved by induction on its measure in the same run)", key))
+}
+
+// verifyPureLemma generates the induction obligation of a pure lemma:
+//   (forall y. 0 <= m(y) < m(x) && pre(y) ==> post(y))  &&  pre(x)  ==>  post(x)   and   m(x) >= 0.
+func verifyPureLemma(prog *Program, ct *Contract, opts *Options) (fr *FuncResult) {
+	t0 := time.Now()
+	fr = &FuncResult{Key: ct.Key}
+	fi := &FuncInfo{Key: ct.Key, Pkg: prog.Pkgs[ct.Pkg]}
+	e := newExec(prog, fi, ct, opts)
+	e.wordMode = true
+	defer func() {
+		if r := recover(); r != nil {
+			if se, ok := r.(specErr); ok {
+				fr.SpecErrors = append(fr.SpecErrors, se.msg)
+			} else {
+				fr.Crashed = fmt.Sprint(r)
+			}
+		}
+		fr.Obls = e.obls
+		fr.SpecErrors = append(fr.SpecErrors, e.specErrors...)
+		for k := range e.assumptions {
+			fr.Assumptions = append(fr.Assumptions, k)
+		}
+		fr.UsedLemmas = e.usedLemmas
+		fr.GenTime = time.Since(t0).Seconds()
+		for _, o := range fr.Obls {
+			o.exec = e
+		}
+	}()
+	e.declare("alloc!0", SInt)
+	e.alloc0 = Term{"alloc!0", SInt}
+	for _, ln := range ct.Uses {
+		k := ct.Pkg + "." + ln
+		if c2 := prog.Contracts[k]; c2 != nil && c2.Pure {
+			e.usePureLemma(k, c2, false)
+		} else {
+			e.specErrors = append(e.specErrors, "purelemma: use "+ln+": only pure lemmas can be used here")
+		}
+	}
+	// induction hypothesis
+	bIH, _, preIH, postIH, mIH, patsIH := e.pureLemmaParts(ct, "y!")
+	binders, vars, pre, post, m, _ := e.pureLemmaParts(ct, "x!")
+	for i, v := range vars {
+		_ = i
+		e.declare(v.S, v.Sort)
+	}
+	_ = binders
+	ih := Implies(And(Le(IntLit(0), mIH), Lt(mIH, m), preIH), postIH)
+	txt := fmt.Sprintf("(assert (forall (%s) (! %s %s)))", strings.Join(bIH, " "), ih.S, strings.Join(patsIH, " "))
+	if len(patsIH) == 0 {
+		txt = fmt.Sprintf("(assert (forall (%s) %s))", strings.Join(bIH, " "), ih.S)
+	}
+	e.globalAxiom(txt)
+	st := &State{vars: nil, heap: map[string]Term{}, pc: True}
+	e.assume(st, pre)
+	e.obligeNamed(st, ct.Key+"/post#0", "post", "", post, "pure lemma by induction on its measure", 0)
+	return
 }
